@@ -110,6 +110,13 @@ def replay(chk, cases, variants):
                 row = impl.make_row(distance=tgt, drop_adj=vc, windage_adj=hc, look_distance=U.Foot((tgt >> U.Foot) * 1.25 + 7.0),
                                     height=U.Foot(33.0), target_drop=U.Foot(-4.5), time=1.5)
                 chk.stratum("row_of_an_inclined_shot")
+            if ci % 2 == 0:
+                # the same sight was just asked about a target whose distance LOOKS like this one - the bare number of this distance's
+                # raw magnitude (that many yards / preferred units), and a quantity of as many inches as this one has preferred units -
+                # at the same magnification: every answer is about the distance it was asked for
+                chk.stratum("sight_asked_about_a_look_alike_distance_just_before")
+                impl.outcome(sight.get_adjustment, U.Inch(tgt >> m.PreferredUnits.distance), vc, hc, c["mag"])
+                impl.outcome(sight.get_adjustment, float(tgt.raw_value), vc, hc, c["mag"])      # (the LAST request before this one)
             for entry, fn in (("get_adjustment", lambda: sight.get_adjustment(tgt, vc, hc, c["mag"])),
                               ("get_trajectory_adjustment", lambda: sight.get_trajectory_adjustment(row, c["mag"]))):
                 o2 = impl.outcome(fn)
@@ -153,7 +160,7 @@ def run(chk: core.Check, replay_path=None, **_):
     for x in cases[:: max(1, len(cases) // 4)][:4]:
         chk.sample(x)
     core.reset_world()
-    chk.require_strata(["click_sizes_as_bare_numbers", "missing_calibration_given_as_bare_zero", "row_of_an_inclined_shot", "rejected", "FFP", "SFP", "LWIR", "pref_adjustment_tangent_unit", "caller_redisplays_click",
+    chk.require_strata(["sight_asked_about_a_look_alike_distance_just_before", "click_sizes_as_bare_numbers", "missing_calibration_given_as_bare_zero", "row_of_an_inclined_shot", "rejected", "FFP", "SFP", "LWIR", "pref_adjustment_tangent_unit", "caller_redisplays_click",
                         "target_and_calibration_in_different_units",
                         "distance_display_and_preference_changed_after_construction"])
     chk.extra["unit_variants"] = [f"{a[0]}/{d[0]}" for a, d in variants]
